@@ -187,7 +187,11 @@ def run_regions(ctx, res, cases, oracle, mode, known_ok=True):
                                      'observed': [' '.join(g) for g in io], 'model': [' '.join(g) for g in mo],
                                      'known': known})
             res.compared += 1
-            pi, pm = project(ops, io, mode), project(ops, mo, mode)
+            # Huffman bit ranges depend on how ties between equally frequent symbols are broken, which no property fixes
+            # (any optimal code is allowed): for entries containing a HuffmanContainer the index VALUES are compared with
+            # the model only through the oracle (contiguity, sum of code lengths, optimal total cost), never literally
+            m_ = 'values' if (contains(e, 'huf') and mode in ('full', 'state')) else mode
+            pi, pm = project(ops, io, m_), project(ops, mo, m_)
             if pi != pm and not (known_ok and is_known_bad(e)):
                 t = next((i for i in range(max(len(pi), len(pm))) if i >= len(pi) or i >= len(pm) or pi[i] != pm[i]), 0)
                 res.corr.append({'kind': f'regions/{mode}', 'entry': name, 'profile': prof,
